@@ -13,6 +13,9 @@ import (
 	configv1alpha1 "github.com/furiko-io/furiko/apis/config/v1alpha1"
 	execution "github.com/furiko-io/furiko/apis/execution/v1alpha1"
 
+	"github.com/furiko-io/furiko/pkg/execution/controllers/croncontroller"
+	"github.com/furiko-io/furiko/pkg/execution/util/jobconfig"
+
 	"furikoverif/internal/core"
 	"furikoverif/internal/sim"
 )
@@ -254,8 +257,16 @@ func init() {
 			if i%2 == 1 {
 				sc.Opt.Mode = "rand"
 			}
-			sc.Opt.Faults = &sim.RandomFaults{Pct: 5 + r.Intn(25), Kinds: []sim.FaultKind{sim.F500Before, sim.F409Before, sim.FTimeoutAfter, sim.F503Before, sim.F429Before}, R: rand.New(rand.NewSource(sc.Opt.Seed ^ 0x20)), Until: 60 + r.Intn(300)}
+			rf := &sim.RandomFaults{Pct: 5 + r.Intn(25), Kinds: []sim.FaultKind{sim.F500Before, sim.F409Before, sim.FTimeoutAfter, sim.F503Before, sim.F429Before}, R: rand.New(rand.NewSource(sc.Opt.Seed ^ 0x20)), Until: 60 + r.Intn(300)}
+			sc.Opt.Faults = rf
 			sc.Note = "random fault pattern"
+			if i%4 == 3 {
+				// a long outage of one kind of call: dozens of consecutive failures of the same work item
+				vk := [][2]string{{"create", "jobs"}, {"update/status", "jobs"}, {"create", "pods"}, {"update/status", "jobconfigs"}, {"", ""}}[r.Intn(5)]
+				from := time.Duration(5+r.Intn(25)) * time.Second
+				sc.Opt.Faults = &sim.Outage{Verb: vk[0], Kind: sim.Kind(vk[1]), From: from, To: from + time.Duration(60+r.Intn(400))*time.Second, Inner: rf}
+				sc.Note = fmt.Sprintf("outage of %q %q for minutes, plus random faults", vk[0], vk[1])
+			}
 			return sc
 		},
 		After: func(env *core.Env, i int, w, base *sim.World, res *core.Result) {
@@ -290,6 +301,9 @@ func init() {
 			return sc
 		},
 		NonTrivial: func(w *sim.World, hit *sim.Call) bool { return w.Mon.DupRequests > 0 },
+		RacePkgs:   []string{"pkg/execution/controllers/croncontroller", "pkg/execution/util/jobconfig", "pkg/execution/util/cronschedule"},
+		Phases: []core.Phase{{Name: "keys", Run: c02Keys, Count: tierN(1, 4)},
+			{Name: "stress", Race: true, Run: stressPhase(map[string]bool{"C02": true}, 0, ""), Count: tierN(1, 2)}},
 	})
 }
 
@@ -301,7 +315,8 @@ func c20Case(seed int64, mode string, variant int) simCase {
 		CronCfg: &configv1alpha1.CronExecutionConfig{MaxMissedSchedules: pointer.Int64(100)}}
 	prof := sim.Profile{MinJobConfigs: 1, MaxJobConfigs: 2, MinJobs: 1, MaxJobs: 3, OwnedBias: 50,
 		Policies: []execution.ConcurrencyPolicy{execution.ConcurrencyPolicyAllow, execution.ConcurrencyPolicyEnqueue}, MaxConcurrency: 2,
-		Parallel: 30, MaxAttempts: 2, MaxRetryDelay: 3, PendingTimeout: []int64{0}, TTL: []int64{40}, Spread: 20, CronJCs: 2, CronStopAfter: 45 * time.Second}
+		Parallel: 30, MaxAttempts: 2, MaxRetryDelay: 3, PendingTimeout: []int64{0}, TTL: []int64{40}, Spread: 20, CronJCs: 2, CronStopAfter: 45 * time.Second, TemplateMeta: 25}
+	o.StoreYield = r.Intn(2) == 0
 	return simCase{Opt: o, Prof: prof}
 }
 
@@ -350,8 +365,51 @@ func c02Case(seed int64, mode string) simCase {
 		CronCfg: &configv1alpha1.CronExecutionConfig{MaxMissedSchedules: pointer.Int64(int64(1 + r.Intn(8)))}}
 	prof := sim.Profile{MinJobConfigs: 1, MaxJobConfigs: 3, MinJobs: 0, MaxJobs: 2, OwnedBias: 100, Policies: allPolicies, MaxConcurrency: 2,
 		MaxAttempts: 1, PendingTimeout: []int64{0}, TTL: []int64{25}, Spread: 30, CronJCs: 3, CronStopAfter: time.Duration(40+r.Intn(40)) * time.Second,
-		Namespaces: []string{"default", "team-a"}, HostileNames: true, DupRequests: 30, DeletePct: 20}
+		Namespaces: []string{"default", "team-a"}, HostileNames: true, DupRequests: 30, DeletePct: 20, TemplateMeta: 50}
+	o.StoreYield = r.Intn(2) == 0
 	return simCase{Opt: o, Prof: prof}
 }
 
 var _ = strconv.Itoa
+
+// c02Keys: the cron work-item key <namespace>/<name>.<unix> must round-trip for every legal
+// JobConfig name (DNS subdomain names may contain dots and digits) and schedule time, and the
+// Job name must be the documented function of (JobConfig name, schedule time).
+func c02Keys(env *core.Env, res *core.Result) {
+	r := rand.New(rand.NewSource(env.Seed*31337 + int64(env.From)))
+	n := 20000
+	if env.Tier == "thorough" {
+		n = 500000
+	}
+	parts := []string{"a", "job", "cfg", "1", "2208988800", "0", "x-y", "v1", "9z", "a1b2", "12345678901"}
+	for c := 0; c < n; c++ {
+		k := 1 + r.Intn(4)
+		var p []string
+		for i := 0; i < k; i++ {
+			p = append(p, parts[r.Intn(len(parts))])
+		}
+		name := strings.Join(p, ".")
+		ns := []string{"default", "team-a", "ns.with.dots"}[r.Intn(3)]
+		ts := time.Unix(int64(r.Intn(2_000_000_000))+1_000_000_000, 0)
+		jc := &execution.JobConfig{}
+		jc.Name, jc.Namespace = name, ns
+		key, err := croncontroller.JobConfigKeyFunc(jc, ts)
+		res.Evaluations++
+		if err != nil {
+			res.Violate(core.Violation{Prop: "C02", Sig: "key-func-error", Msg: fmt.Sprintf("JobConfigKeyFunc(%s/%s, %d): %v", ns, name, ts.Unix(), err), Case: -c - 1})
+			continue
+		}
+		nsGot, rest, _ := strings.Cut(key, "/")
+		gotName, gotTS, err := croncontroller.SplitJobConfigKeyName(rest)
+		if err != nil || nsGot != ns || gotName != name || !gotTS.Equal(ts) {
+			res.Violate(core.Violation{Prop: "C02", Sig: "key-round-trip", Msg: fmt.Sprintf("work item key %q of JobConfig %s/%s at %d splits into (%q, %q, %v, err %v)", key, ns, name, ts.Unix(), nsGot, gotName, gotTS.Unix(), err), Case: -c - 1})
+		}
+		if jn := jobconfig.GenerateName(name, ts); jn != fmt.Sprintf("%s-%d", name, ts.Unix()) {
+			res.Violate(core.Violation{Prop: "C02", Sig: "job-name-function", Msg: fmt.Sprintf("GenerateName(%q, %d) = %q", name, ts.Unix(), jn), Case: -c - 1})
+		}
+		if strings.Contains(name, ".") {
+			res.MarkDistinct("key|" + strings.Join(p, "|")[:min(len(strings.Join(p, "|")), 24)])
+		}
+	}
+	res.Count("key_round_trips", n)
+}
